@@ -606,7 +606,10 @@ pub fn mutate_once(rng: &mut Rng, lines: &mut Vec<String>) -> &'static str {
     let pick_id = |rng: &mut Rng, pool: &Vec<String>| -> String {
         if pool.is_empty() || rng.chance(1, 6) { format!("{}", rng.below(40)) } else { rng.pick(pool).clone() }
     };
-    let kind = rng.below(26);
+    let kind = rng.below(29);
+    if kind >= 26 {
+        return mutate_array_operand(rng, lines);
+    }
     if kind >= 24 {
         // the value operand of an init / next line is replaced by another node of the file
         let tl: Vec<Vec<String>> = lines.iter().map(|l| toks(l)).collect();
@@ -923,6 +926,114 @@ pub fn mutate_array_sort(rng: &mut Rng, lines: &mut Vec<String>) -> &'static str
     "array_sort"
 }
 
+/// One operand of a line that works on arrays (write, read, array ite, eq/neq over arrays) is replaced by a node of the same KIND
+/// (bit-vector / array) but of a different sort: a data or index operand of another width, an array with another element or index
+/// sort.  Everything else on the line (operator, declared sort, the other operands) stays right, so the only thing wrong with the
+/// file is the relation BETWEEN the operand sorts.  If the file has no such node, a sort and an input are declared right before the line.
+pub fn mutate_array_operand(rng: &mut Rng, lines: &mut Vec<String>) -> &'static str {
+    #[derive(Clone, PartialEq)]
+    enum Sd {
+        Bv(u64),
+        Arr(String, String),
+    }
+    let tl: Vec<Vec<String>> = lines.iter().map(|l| toks(l)).collect();
+    let mut sorts: std::collections::HashMap<String, Sd> = std::collections::HashMap::new();
+    for t in tl.iter() {
+        if t.len() > 3 && t[1] == "sort" && t[2] == "bitvec" {
+            if let Ok(w) = t[3].parse::<u64>() {
+                sorts.insert(t[0].clone(), Sd::Bv(w));
+            }
+        } else if t.len() > 4 && t[1] == "sort" && t[2] == "array" {
+            sorts.insert(t[0].clone(), Sd::Arr(t[3].clone(), t[4].clone()));
+        }
+    }
+    // node id -> (line index, sort id)
+    let mut node: std::collections::HashMap<String, (usize, String)> = std::collections::HashMap::new();
+    for (i, t) in tl.iter().enumerate() {
+        if t.len() > 2 && !matches!(t[1].as_str(), "sort" | "init" | "next" | "output" | "bad" | "constraint" | "fair" | "justice") && sorts.contains_key(&t[2]) {
+            node.entry(t[0].clone()).or_insert((i, t[2].clone()));
+        }
+    }
+    let strip = |x: &str| x.trim_start_matches('-').to_string();
+    let is_arr = |id: &str| matches!(node.get(&strip(id)).and_then(|n| sorts.get(&n.1)), Some(Sd::Arr(_, _)));
+    let cands: Vec<usize> = (0..tl.len())
+        .filter(|i| {
+            let t = &tl[*i];
+            match t.get(1).map(|x| x.as_str()) {
+                Some("write") => t.len() > 5,
+                Some("read") => t.len() > 4,
+                Some("ite") => t.len() > 5 && is_arr(&t[4]),
+                Some("eq") | Some("neq") => t.len() > 4 && is_arr(&t[3]),
+                _ => false,
+            }
+        })
+        .collect();
+    if cands.is_empty() {
+        return "noop";
+    }
+    let li = *rng.pick(&cands);
+    let mut t = tl[li].clone();
+    let pos: usize = match t[1].as_str() {
+        // the data operand of a write most often: it is the one nothing but the node check looks at
+        "write" => *rng.pick(&[5usize, 5, 5, 4, 3]),
+        "read" => *rng.pick(&[4usize, 4, 3]),
+        "ite" => *rng.pick(&[4usize, 5]),
+        _ => *rng.pick(&[3usize, 4]),
+    };
+    let Some(cur) = node.get(&strip(&t[pos])).and_then(|n| sorts.get(&n.1)).cloned() else { return "noop" };
+    let same_kind = |a: &Sd, b: &Sd| matches!((a, b), (Sd::Bv(_), Sd::Bv(_)) | (Sd::Arr(_, _), Sd::Arr(_, _)));
+    let resolve = |d: &Sd| -> Option<(u64, u64)> {
+        match d {
+            Sd::Arr(i, e) => match (sorts.get(i), sorts.get(e)) {
+                (Some(Sd::Bv(a)), Some(Sd::Bv(b))) => Some((*a, *b)),
+                _ => None,
+            },
+            _ => None,
+        }
+    };
+    let differs = |a: &Sd, b: &Sd| match (a, b) {
+        (Sd::Bv(x), Sd::Bv(y)) => x != y,
+        (Sd::Arr(_, _), Sd::Arr(_, _)) => resolve(a) != resolve(b),
+        _ => false,
+    };
+    let pool: Vec<String> = node
+        .iter()
+        .filter(|(_, (i, sid))| *i < li && sorts.get(sid).map(|d| same_kind(d, &cur) && differs(d, &cur)).unwrap_or(false))
+        .map(|(id, _)| id.clone())
+        .collect();
+    if !pool.is_empty() && rng.chance(3, 4) {
+        let mut pool = pool;
+        pool.sort();
+        t[pos] = rng.pick(&pool).clone();
+        lines[li] = t.join(" ");
+        return "array_operand";
+    }
+    // declare a node of a different sort of the same kind right before the line
+    let fresh = tl.iter().filter_map(|t| t.first().and_then(|x| x.parse::<u64>().ok())).max().unwrap_or(0) + 1;
+    let mut pre: Vec<String> = vec![];
+    match &cur {
+        Sd::Bv(w) => {
+            let nw = if *w > 1 && rng.chance(1, 2) { w - 1 } else { w + 1 };
+            pre.push(format!("{fresh} sort bitvec {nw}"));
+            pre.push(format!("{} input {fresh}", fresh + 1));
+            t[pos] = format!("{}", fresh + 1);
+        }
+        Sd::Arr(i, e) => {
+            let Some((iw, ew)) = resolve(&cur) else { return "noop" };
+            pre.push(format!("{fresh} sort bitvec {}", if rng.chance(1, 2) { ew + 1 } else { iw + 1 }));
+            let other_elem = pre[0].ends_with(&format!(" {}", ew + 1)) && rng.chance(2, 3);
+            pre.push(if other_elem { format!("{} sort array {i} {fresh}", fresh + 1) } else { format!("{} sort array {fresh} {e}", fresh + 1) });
+            pre.push(format!("{} input {}", fresh + 2, fresh + 1));
+            t[pos] = format!("{}", fresh + 2);
+        }
+    }
+    lines[li] = t.join(" ");
+    for (k, l) in pre.into_iter().enumerate() {
+        lines.insert(li + k, l);
+    }
+    "array_operand"
+}
+
 fn width_variant(rng: &mut Rng, old: &str, sort_line: bool) -> String {
     let w: u64 = old.parse().unwrap_or(8);
     match rng.below(12) {
@@ -958,7 +1069,49 @@ fn width_variant(rng: &mut Rng, old: &str, sort_line: bool) -> String {
 pub fn edge_template(rng: &mut Rng) -> (Vec<String>, &'static str) {
     let w = *rng.pick(&[1u64, 2, 7, 8, 32, 33, 64, 65, 128, 129]);
     let s = |x: &str| x.to_string();
-    let pick = rng.below(50);
+    let pick = rng.below(56);
+    if pick >= 50 {
+        // operators on arrays whose operands are all of the right KIND, with the declared sort of the array operand, but whose operand
+        // sorts do not fit each other: a write of a value of another width or at an index of another width, a read at an index of
+        // another width or into another width, an ite over arrays of different sorts, eq/neq of arrays of different sorts.
+        // One in five lines is well sorted (same shape, to keep the accepted side of the comparison covered).
+        let (iw, dw) = (rng.range(1, 4), rng.range(1, 5));
+        let (iw2, dw2) = (if iw > 1 && rng.chance(1, 2) { iw - 1 } else { iw + 1 }, if dw > 1 && rng.chance(1, 2) { dw - 1 } else { dw + 1 });
+        let (line, arr) = match rng.below(15) {
+            0 | 1 | 2 => (s("20 write 4 6 7 9"), true),   // data of another width
+            3 => (s("20 write 4 6 32 8"), true),          // index of another width
+            4 => (s("20 write 4 6 32 9"), true),
+            5 => (s("20 read 2 6 32"), false),            // index of another width
+            6 => (s("20 read 3 6 7"), false),             // result sort of another width
+            7 => (s("20 ite 4 37 6 33"), true),           // other element sort
+            8 => (s("20 ite 4 37 34 6"), true),           // other index sort
+            9 => (format!("20 {} 36 6 33", rng.pick(&["eq", "neq"])), false),
+            10 => (format!("20 {} 36 34 6", rng.pick(&["eq", "neq"])), false),
+            11 => (s("20 write 4 6 7 8"), true),
+            12 => (s("20 ite 4 37 6 35"), true),
+            13 => (format!("20 {} 36 6 35", rng.pick(&["eq", "neq"])), false),
+            _ => (s("20 write 5 33 7 9"), true),          // well sorted write into the array with the other element sort
+        };
+        let mut l = vec![format!("1 sort bitvec {iw}"), format!("2 sort bitvec {dw}"), format!("3 sort bitvec {dw2}"), format!("30 sort bitvec {iw2}"),
+                         s("4 sort array 1 2"), s("5 sort array 1 3"), s("31 sort array 30 2"), s("6 state 4 m"), s("7 input 1 i"), s("8 input 2 d"), s("9 input 3 dx"),
+                         s("32 input 30 ix"), s("33 input 5 mx"), s("34 input 31 my"), s("35 input 4 m2"), s("36 sort bitvec 1"), s("37 input 36 c"), line.clone()];
+        if arr {
+            let first_sort = line.split(' ').nth(2).unwrap_or("4").to_string();
+            if first_sort == "4" {
+                l.push(s("21 read 2 20 7"));
+                l.push(s("22 output 21"));
+                if rng.chance(1, 2) {
+                    l.push(s("23 next 4 6 20"));
+                }
+            } else {
+                l.push(s("21 read 3 20 7"));
+                l.push(s("22 output 21"));
+            }
+        } else {
+            l.push(s("21 output 20"));
+        }
+        return (l, "array_operand_sorts");
+    }
     if pick >= 46 {
         // an array-valued line annotated with a different ARRAY sort (other element or index sort)
         let (iw, dw) = (rng.range(1, 3), rng.range(2, 5));
